@@ -120,9 +120,11 @@ def gen_case(idx: int, seed: int, tier: str) -> Any:
     for n in tree:
         n["td_prepare"] = rng.randint(1, 3) if rng.random() < 0.8 else 0
         n["td_start"] = rng.randint(1, 3) if rng.random() < 0.8 else 0
+        n["svc_prepare"] = rng.choice([None, None, None, None, "function", "unhashable_object", "builtin"])
+        n["svc_start"] = rng.choice([None, None, None, None, "function", "unhashable_object", "builtin"])
         n["sleep_prepare"] = rng.choice([0, 0.5, 1])
         n["sleep_start"] = rng.choice([0, 0.5, 1])
-        n["has_prepare"] = n["td_prepare"] > 0 or rng.random() < 0.5
+        n["has_prepare"] = n["td_prepare"] > 0 or bool(n["svc_prepare"]) or rng.random() < 0.5
         if base["ending"].get("phase") == "prepare" and base["ending"].get("path") == n["path"]:
             n["has_prepare"] = True
     base["tree"] = tree
@@ -191,6 +193,28 @@ class Scenario:
             node = nodes[path]
             sc.log("phase-begin", path, phase=phase)
             reg_teardowns(path, phase, node[f"td_{phase}"])
+            if node.get(f"svc_{phase}"):
+                # an idle service task of the application; its teardown action (a callable in one of several forms) is one more
+                # teardown step of the root context, observed when it is invoked
+                counter[0] += 1
+                stid = counter[0]
+                form = node[f"svc_{phase}"]
+                stop = anyio.Event()
+
+                async def idle() -> None:
+                    await stop.wait()
+
+                def stop_action() -> None:
+                    sc.log("td-run", stid, form="service-action:" + form)
+                    stop.set()
+
+                action: Any = stop_action
+                if form == "unhashable_object":
+                    action = type("Stopper", (), {"__call__": lambda self: stop_action(), "__eq__": lambda s, o: s is o, "__hash__": None})()
+                elif form == "builtin":
+                    action = [type("Trigger", (), {"__lt__": lambda s, o: bool(stop_action())})() for _ in range(2)].sort
+                await start_service_task(idle, f"idle{stid}", teardown_action=action)
+                sc.log("td-reg", stid, by=path, phase=phase)
             if ending["kind"] == "service_crash_during" and path == "" and phase == ("prepare" if node["has_prepare"] else "start"):
                 async def crasher() -> None:
                     await anyio.sleep(0.25)
